@@ -368,7 +368,7 @@ def run(ctx):
     if ctx.quick:
         phases = [("first", 2, "full"), ("all", 1, "full"), ("all", 2, "core"), ("first", 3, "core")]
     else:
-        phases = [("first", 3, "medium"), ("all", 2, "full"), ("all", 3, "core"), ("first", 4, "core")]
+        phases = [("first", 3, "medium"), ("all", 2, "full"), ("all", 3, "core")]      # (depth 4 over the core menu, 4 million scripts, was dropped: about half an hour for no family it does not already hold)
     stats = collections.Counter()
     allv = common.Violations(keep=10)
     distinct = set()
